@@ -176,13 +176,14 @@ pub fn exec(spec: &Spec, r: &mut RunResult) {
                             r.violate(
                                 class,
                                 format!("goal `{}` ({}): recorded `{}`, on the logged program `{}` | logged: {}", spec.world.goals[op.goal], spec.slots[op.slot].name(), orig, replayed, text.replace('\n', " ").chars().take(600).collect::<String>()),
-                                Some(&format!(
+                                Some(&(format!(
                                     "log:{}{}{}{}",
                                     class,
                                     if auto { "+auto-trait" } else { "" },
                                     if neg { "+negative-impl" } else { "" },
                                     if orig.starts_with("Ambiguous") && !spec.world.goals[op.goal].contains("exists") { "+recorded-ambiguous-closed" } else { "" }
-                                )),
+                                ) + &static_tags(&spec.world, op.goal)
+                                    + if orig.starts_with("Ambiguous") != replayed.starts_with("Ambiguous") && !orig.starts_with("No possible") && !replayed.starts_with("No possible") { "+weaker" } else { "" })),
                             );
                         }
                     }
